@@ -457,6 +457,9 @@ def observe(env, case):
                         rec.log(["stop"])
                         return "stop"
                     except Exception as e:  # noqa: BLE001
+                        # observed while the exception (and its traceback) is still alive: "closed by the
+                        # time the call has raised", not "closed once the caller lets go of the exception"
+                        obs.setdefault("open_at_raise", []).append([not h.closed for h in rec.handles])
                         rec.log(["raised"] + rec.exn(e))
                         if isinstance(e, Injected) and (e.stage, e.k) != rec.fault:
                             obs["foreign"] = repr(e)
@@ -507,6 +510,7 @@ def observe(env, case):
                     else:
                         raise KeyError(entry)
                 except Exception as e:  # noqa: BLE001 - every exception is an outcome
+                    obs.setdefault("open_at_raise", []).append([not h.closed for h in rec.handles])
                     rec.log(["raised"] + rec.exn(e))
                     obs["outcome"] = ["raised"] + rec.exn(e)
                     obs["exception"] = type(e).__name__
@@ -583,6 +587,9 @@ def judge(ctx, case, obs, rep, abandoned_rep=None):
         ctx.violation(f"{case['entry']}: a file opened by the library is still open after the call "
                       f"{'returned' if obs['outcome'] == ['returned'] else 'raised / the iterator finished'}",
                       case, detail=obs, python=python_line(case))
+    if any(any(x) for x in obs.get("open_at_raise", [])):
+        ctx.violation(f"{case['entry']}: a file opened by the library is still open at the moment the call raises "
+                      "(it is closed only when the caller releases the exception)", case, detail=obs, python=python_line(case))
     opened = [e for e in obs["trace"] if e[0] == "opened"]
     fired = any(e[0] == "raised" for e in obs["trace"])
     multi = case["entry"] in ("load_all", "dump_all")
